@@ -200,6 +200,7 @@ type c18SrvRes struct {
 type c18Mat struct {
 	dir       string
 	certs     map[int]*x509.Certificate
+	unusable  map[int]*x509.Certificate // ids 7..12: LoadedCertificate VALUES that cannot be presented (no / unparsable Raw), see loadedCert
 	keys      map[int]crypto.Signer
 	certPath  map[int]string
 	keyPath   map[int]string
@@ -356,6 +357,25 @@ func c18Material() *c18Mat {
 		m.certPath[5] = c18Write(m.dir, "chain5.crt", pemOf(4), pemOf(5), pemOf(6))
 		m.certPath[6] = c18Write(m.dir, "chain6-wrong-order.crt", pemOf(5), pemOf(4))
 		m.keyPath[7] = c18Write(m.dir, "key7.key", &pem.Block{Type: "EC PRIVATE KEY", Bytes: c18Must(x509.MarshalECPrivateKey(k7))})
+		// loaded certificate values whose encoding cannot be presented: the slot is non-nil, so an identity was requested
+		tmpl := func(pub crypto.PublicKey) *x509.Certificate { // filled in by hand, never went through CreateCertificate + ParseCertificate
+			return &x509.Certificate{SerialNumber: big.NewInt(4242), Subject: pkix.Name{CommonName: "c18 template"}, NotBefore: time.Now().Add(-time.Hour),
+				NotAfter: time.Now().Add(time.Hour), KeyUsage: x509.KeyUsageDigitalSignature, ExtKeyUsage: []x509.ExtKeyUsage{x509.ExtKeyUsageClientAuth}, PublicKey: pub}
+		}
+		withRaw := func(of int, raw []byte) *x509.Certificate { // the parsed fields of a good certificate around another encoding
+			c := *m.certs[of]
+			c.Raw = raw
+			return &c
+		}
+		der1, der2 := m.certs[1].Raw, m.certs[2].Raw
+		m.unusable = map[int]*x509.Certificate{
+			7:  {},                                      // zero value
+			8:  tmpl(m.keys[1].Public()),                // template carrying the public key of RSA key 1
+			9:  tmpl(m.keys[2].Public()),                // template carrying the public key of EC key 2
+			10: withRaw(1, []byte("c18: not DER at all")), // Raw is garbage
+			11: withRaw(2, der2[:len(der2)/2]),          // Raw is a truncated encoding
+			12: withRaw(1, append(append([]byte(nil), der1...), 0x30, 0x00)), // Raw has trailing bytes after the certificate
+		}
 		m.certPath[100] = filepath.Join(m.dir, "does-not-exist.crt")
 		m.keyPath[100] = filepath.Join(m.dir, "does-not-exist.key")
 		m.caPath[100] = filepath.Join(m.dir, "does-not-exist-ca.crt")
@@ -462,6 +482,14 @@ func (m *c18Mat) keyID(k crypto.PrivateKey) int {
 	return 99
 }
 
+// loadedCert: the value put in LoadedCertificate. 1..4 are parsed certificates, 7..12 values that cannot be presented.
+func (m *c18Mat) loadedCert(id int) *x509.Certificate {
+	if c, ok := m.unusable[id]; ok {
+		return c
+	}
+	return m.certs[id]
+}
+
 func (m *c18Mat) loadedKey(id int) crypto.PrivateKey {
 	switch id {
 	case 0:
@@ -491,7 +519,7 @@ func (m *c18Mat) options(in c18In, hp *c18HistPaths) (o client.TLSClientOptions)
 		}
 	}()
 	if in.LoadedCert != 0 {
-		o.LoadedCertificate = m.certs[in.LoadedCert]
+		o.LoadedCertificate = m.loadedCert(in.LoadedCert)
 	}
 	if in.KeyFile != 0 {
 		o.Key = m.keyPath[in.KeyFile]
@@ -556,7 +584,7 @@ func c18Valid(in c18In) bool {
 		}
 		return false
 	}
-	return ok(in.CertFile, 0, 1, 2, 3, 4, 5, 6, 100, 101) && ok(in.LoadedCert, 0, 1, 2, 3, 4) && ok(in.KeyFile, 0, 1, 2, 3, 4, 7, 100, 101) &&
+	return ok(in.CertFile, 0, 1, 2, 3, 4, 5, 6, 100, 101) && ok(in.LoadedCert, 0, 1, 2, 3, 4, 7, 8, 9, 10, 11, 12) && ok(in.KeyFile, 0, 1, 2, 3, 4, 7, 100, 101) &&
 		ok(in.LoadedKey, 0, 1, 2, 3, 4, 5, 6, 7) && ok(in.CAFile, 0, 1, 2, 3, 100, 101) &&
 		ok(int(in.LoadedCA), 0, 1, 2) && ok(int(in.Pool), 0, 1, 2, 3) && ok(int(in.Callback), 0, 1, 2) && ok(int(in.Cache), 0, 1, 2) &&
 		ok(in.Via, 0, 1, 2)
@@ -630,6 +658,9 @@ type c18Dims struct {
 	insecure                                              []bool
 	pass                                                  []c18Pass
 }
+
+// c18Unusable: the loaded-certificate ids whose value cannot be presented (c18Mat.unusable).
+var c18Unusable = []int{7, 8, 9, 10, 11, 12}
 
 // c18IDs: (certificate file, loaded certificate, key file, loaded key) tuples used where the identity is not the axis of interest.
 type c18ID [4]int
@@ -717,8 +748,32 @@ func (c18) Enumerate(tier string) []any {
 			out = append(out, in)
 		}
 	}
+	// 6. the loaded-certificate slot holds a VALUE that cannot be presented (zero value, hand-made templates, garbage / truncated /
+	//    over-long Raw) x every kind of loaded key (none, matching family, other family, unsupported type): an identity was requested,
+	//    so an error is due whatever else is set; next to a certificate file the file form wins; through all three entry points
+	var bad []c18ID
+	for _, lc := range c18Unusable {
+		for _, lk := range []int{0, 1, 2, 3, 4} {
+			bad = append(bad, c18ID{0, lc, 0, lk}, c18ID{0, lc, 1, lk})
+		}
+		bad = append(bad, c18ID{1, lc, 1, 0}, c18ID{1, lc, 1, 1}, c18ID{100, lc, 0, 1})
+	}
+	out = c18Product(c18Dims{caFiles: []int{0, 1}, loadedCAs: []c18Tok{0}, pools: []c18Tok{0}, names: []string{"", c18Dial}, insecure: bools,
+		pass: []c18Pass{{0, false, 0}, {2, true, 2}}}, bad, out, seen)
+	direct = c18Product(c18Dims{caFiles: []int{0}, loadedCAs: []c18Tok{0, 2}, pools: []c18Tok{0}, names: []string{"", c18Dial}, insecure: bools,
+		pass: []c18Pass{{0, false, 0}}}, bad, nil, map[c18In]bool{})
+	for _, via := range []int{1, 2} {
+		for _, d := range direct {
+			in := d.(c18In)
+			in.Via = via
+			out = append(out, in)
+		}
+	}
 	out = append(out, c18EnumHist(tier)...)
 	if tier == "thorough" {
+		out = c18Product(c18Dims{certFiles: []int{0, 1, 100}, loadedCerts: c18Unusable, keyFiles: []int{0, 1, 2, 100}, loadedKeys: []int{0, 1, 2, 3, 4, 5, 6, 7},
+			caFiles: []int{0, 1, 100}, loadedCAs: []c18Tok{0, 1}, pools: []c18Tok{0, 1}, names: []string{"", c18Dial}, insecure: bools,
+			pass: []c18Pass{{0, false, 0}, {1, true, 1}}}, nil, out, seen)
 		out = c18Product(c18Dims{certFiles: []int{0, 1, 2, 3, 100, 101}, loadedCerts: []int{0, 1, 2, 3}, keyFiles: []int{0, 1, 2, 3, 4, 100, 101},
 			loadedKeys: []int{0, 1, 2, 3, 4, 5, 6}, caFiles: []int{0, 1, 2, 100, 101}, loadedCAs: []c18Tok{0, 1}, pools: []c18Tok{0, 1},
 			names: []string{"", c18Dial, "other.test"}, insecure: bools, pass: []c18Pass{{0, false, 0}, {1, true, 1}}}, nil, out, seen)
@@ -800,6 +855,8 @@ func c18EnumHist(tier string) []any {
 		add(c18In{CAFile: a, Insecure: true}, c18In{CAFile: b, Insecure: true}, c18In{CAFile: 101, Insecure: true})
 		add(c18In{CertFile: 1, KeyFile: 1, CAFile: a}, c18In{LoadedCert: 2, LoadedKey: 2, CAFile: b}, c18In{CertFile: 4, KeyFile: 7, CAFile: a},
 			c18In{CertFile: 1, KeyFile: 1, CAFile: b})
+		add(c18In{LoadedCert: 6 + a, LoadedKey: 1, CAFile: a}, c18In{LoadedCert: 1, LoadedKey: 1, CAFile: b}, c18In{LoadedCert: 9 + a, LoadedKey: 1, CAFile: b},
+			c18In{LoadedCert: 2, LoadedKey: 2, CAFile: a})
 		add(c18In{CertFile: 5, KeyFile: 7, CAFile: a, ServerName: c18Dial}, c18In{CertFile: 2, KeyFile: 2, CAFile: b, ServerName: c18Dial},
 			c18In{CertFile: 100, KeyFile: 100, CAFile: 100, ServerName: c18Dial}, c18In{CertFile: 4, KeyFile: 7, CAFile: a, ServerName: c18Dial})
 	}
@@ -905,7 +962,7 @@ func (c18) Gen(r *rand.Rand, tier string, i int) any {
 	if i%4 == 3 {
 		return c18GenHist(r)
 	}
-	in := c18In{CertFile: pick(0, 0, 1, 2, 3, 4, 5, 6, 100, 101), LoadedCert: pick(0, 0, 1, 2, 3, 4), KeyFile: pick(0, 0, 1, 2, 3, 4, 7, 7, 100, 101),
+	in := c18In{CertFile: pick(0, 0, 1, 2, 3, 4, 5, 6, 100, 101), LoadedCert: pick(0, 0, 1, 2, 3, 4, 1, 2, 7, 8, 9, 10, 11, 12), KeyFile: pick(0, 0, 1, 2, 3, 4, 7, 7, 100, 101),
 		LoadedKey: pick(0, 0, 1, 2, 3, 4, 5, 6, 7), CAFile: pick(0, 0, 1, 2, 3, 100, 101), LoadedCA: c18Tok(pick(0, 0, 1, 2)), Pool: c18Tok(pick(0, 0, 1, 2, 3)),
 		Insecure: r.Intn(2) == 0, Callback: c18Tok(pick(0, 1, 2)), Tickets: r.Intn(2) == 0, Cache: c18Tok(pick(0, 1, 2))}
 	if i%2 == 1 { // every other random case yields a configuration rather than (mostly) an identity error
@@ -929,6 +986,17 @@ func (c18) Gen(r *rand.Rand, tier string, i int) any {
 		in.Via = 1 + r.Intn(2)
 	}
 	return in
+}
+
+// c18AskX509KeyPair: the oracle x509_pair_ok for an arbitrary encoding: does tls.X509KeyPair accept the PEM of these DER bytes
+// next to the PEM of this key (PKCS#8, which X509KeyPair understands for every key family)?
+func c18AskX509KeyPair(der []byte, key crypto.PrivateKey) bool {
+	kb, err := x509.MarshalPKCS8PrivateKey(key)
+	if err != nil {
+		return false
+	}
+	_, err = tls.X509KeyPair(pem.EncodeToMemory(&pem.Block{Type: "CERTIFICATE", Bytes: der}), pem.EncodeToMemory(&pem.Block{Type: "PRIVATE KEY", Bytes: kb}))
+	return err == nil
 }
 
 // c18WantHS: rows on which handshakes are made.
@@ -1164,7 +1232,9 @@ func (m *c18Mat) runStep(in c18In, hp *c18HistPaths) (c18Obs, *tls.Config) {
 	}
 	if in.LoadedCert != 0 && in.LoadedKey != 0 {
 		type eq interface{ Equal(crypto.PublicKey) bool }
-		if p, ok := m.certs[in.LoadedCert].PublicKey.(eq); ok {
+		if lc := m.loadedCert(in.LoadedCert); m.unusable[in.LoadedCert] != nil {
+			obs.X509OK = c18AskX509KeyPair(lc.Raw, m.loadedKey(in.LoadedKey)) // ask the standard library about this encoding
+		} else if p, ok := lc.PublicKey.(eq); ok {
 			obs.X509OK = p.Equal(m.keys[in.LoadedKey].Public())
 		}
 	}
@@ -1390,6 +1460,8 @@ func (c18) Category(inAny any, obsAny any) (string, bool) {
 		id = "cert-chain-file"
 	case in.CertFile != 0:
 		id = "cert-file"
+	case in.LoadedCert >= 7:
+		id = "cert-loaded-unusable-value"
 	case in.LoadedCert != 0:
 		id = "cert-loaded"
 	case in.KeyFile != 0 || in.LoadedKey != 0:
